@@ -15,6 +15,8 @@ def build_file(recs):
     for r in recs:
         if r[0] == "rle":
             out.append(("rle", r[1], r[2], r[3]))
+        elif r[0] == "hex":
+            out.append((r[1], bytes.fromhex(r[2])))   # explicit payload
         else:
             out.append((r[1], bytes(((i * 13 + r[3]) & 0xFF) for i in range(r[2]))))
     return ips_format.serialise(out)
@@ -130,6 +132,21 @@ def gen(tier, rng):
     yield {"recs": [table, ["plain", 0x12002, 2, 0xEE], table], "delta": 0}            # write, poke, restore: the repeated record is applied again
     yield {"recs": [["rle", 0x300, 8, 1], ["rle", 0x302, 2, 2], ["rle", 0x300, 8, 1]], "delta": 0x10}
     yield {"recs": [plain(0x454F00, 4)], "delta": 0x46}                  # lands on 0x454F46 after delta
+    # the bytes 'E','O','F' are only an end marker where a record OFFSET is expected: inside payloads, size fields, run lengths and values they are data
+    for d in (0, 0x200):
+        yield {"recs": [["hex", 0x1000, b"EOF".hex()]], "delta": d}
+        yield {"recs": [["hex", 0x1000, b"GEOFFREY".hex()], plain(0x2000, 3)], "delta": d}
+        yield {"recs": [plain(0x3000, 2), ["hex", 0x1000, (b"xxEOF" + b"PATCH" + b"EOFEOF").hex()], ["rle", 0x4000, 3, 9]], "delta": d}
+        yield {"recs": [["hex", 0x5000, "46" + "00" * (0x454F - 1)], plain(0x100, 1)], "delta": d}     # size field 45 4F, first data byte 46
+        yield {"recs": [["rle", 0x6000, 0x454F, 0x46], plain(0x100, 1)], "delta": d}                    # run length 45 4F, value 46
+        yield {"recs": [["hex", 0x00454F, "00" * 0x4600], plain(0x100, 2)], "delta": d}                 # offset .. 45 4F, size 46 00
+        yield {"recs": [["hex", 0x7000, "45"], ["hex", 0x4F4600, "01"]], "delta": d}                    # data 45, next offset 4F 46 ..
+    # records that END exactly at the top of the 24-bit space (last byte at 0xFFFFFF), before and after the shift
+    yield {"recs": [plain(0xFFFFF0, 16)], "delta": 0}
+    yield {"recs": [plain(0xFFFFFF, 1)], "delta": 0}
+    yield {"recs": [plain(0xFFFDF0, 16)], "delta": 0x200}
+    yield {"recs": [["rle", 0xFF0001, 0xFFFF, 7]], "delta": 0}
+    yield {"recs": [plain(0xFFFFEF, 16), ["rle", 0xFFFFF0, 15, 1]], "delta": 0}
     # EOF marker (and record headers) across the 8 KiB edge of a buffered reader
     for edge in (8192, 16384):
         for k in range(-6, 4):
@@ -165,7 +182,7 @@ def run(tier, seed):
             kinds.add(kind)
             failures.append({"ident": "bounded/include-ips" + ("/rle" if any(r[0] == "rle" for r in c["recs"]) else "/plain"), "script": "b_C13.py", "payload": c, "observed": f})
     return {"evaluations": len(cases), "distinct_nontrivial": len({str(c) for c in cases}),
-            "rule": "the same directive expanded several times (loop / macro) with a per-expansion delta; IPS files built from record lists (plain, run-length, max-length, adjacent, overlapping; 0-6 records) incl. lengths placing EOF "
+            "rule": "the same directive expanded several times (loop / macro) with a per-expansion delta; IPS files built from record lists (plain, run-length, max-length, adjacent, overlapping, ending at the top of the 24-bit space, 'EOF'/'PATCH' bytes inside payloads / size fields / run lengths; 0-6 records) incl. lengths placing EOF "
                     "across the 8 KiB buffer edge, malformed variants (no header, truncated at 4 points), deltas of both signs, directive at several "
                     "placements; real pipeline vs independent reader; each distinct",
             "samples": cases[1:3], "failures": failures}
